@@ -6,7 +6,7 @@
      3  forwarder    [3; upload chunks; download chunks; schedule; up_mid; down_mid; up_final; down_final; eof flags; counters]
      4  forwarder + chunk oracle + FrameStream  [4; data; cuts; eofl; answer; peer_got; local_got; counters ...]
                      (gated replay of a schedule on the real runBidirectionalForward, Model/Forward.v) *)
-From TX Require Import Base.Val Model.CrossFrame Model.Forward Gen.C10.
+From TX Require Import Base.Val Model.CrossFrame Model.CrossTracker Model.Forward Gen.C10.
 Open Scope N_scope.
 
 Definition M := MaxFrameSize.
@@ -93,8 +93,11 @@ Definition model_stream (v : tval) : sobs :=
   let tid := vb (vnth 1 v) in
   let tids := map vb (vl (vnth 3 v)) in
   let '(wire, wres) := run_ops tids (map (fun _ => false) tids) (map dec_op (vl (vnth 4 v))) in
-  let '(l, st, r) := read_stream M tid (vbool (vnth 2 v)) (map vnat (vl (vnth 5 v))) (vnat (vnth 6 v)) wire [] in
-  let '(fin, st', _) := fs_read M tid 64 st r in
+  (* elements 13 / 14: what the reader's tracker reports as closed at each Read / from then on (empty without a tracker) *)
+  let cls := map (fun x => map vb (vl x)) (vl (vnth 13 v)) in
+  let dcl := map vb (vl (vnth 14 v)) in
+  let '(l, st, r) := read_stream_t M false tid (vbool (vnth 2 v)) (map vnat (vl (vnth 5 v))) (vnat (vnth 6 v)) cls dcl wire [] in
+  let '(fin, st', _) := fs_read_t M false dcl tid 64 st r in
   {| so_wire := wire; so_wres := wres;
      so_reads := flat_map (fun x => match x with RData d => [d] | _ => [] end) l;
      so_term := rres_kind (last l RFuel); so_final := rres_kind fin; so_broken := r_broken st' |}.
